@@ -518,7 +518,9 @@ class FunctionStub(Stub):
         s += render_signature(self.signature, 120 - len(s), prefix) + ": ..."
         # Yes, this is a horrible hack, but inspect.py gives us no way to
         # specify the function that should be used to format annotations.
-        for module in self.strip_modules:
+        # Longest first: with both pkg and pkg.utils imported, pkg.utils.B must
+        # lose "pkg.utils." rather than just "pkg.".
+        for module in sorted(self.strip_modules, key=len, reverse=True):
             # Only strip the prefix of a whole dotted name: not the tail of a
             # longer module path (utils. in my.utils.B) or of a longer
             # identifier (foo. in barfoo.Baz).
